@@ -1,3 +1,4 @@
+use crate::fields::swift_utils::currency_prefix;
 use crate::errors::SwiftValidationError;
 use crate::fields::*;
 use crate::parser::utils::*;
@@ -133,7 +134,7 @@ impl MT941 {
 
     /// Get the base currency (first two characters) from mandatory field 62F
     fn get_base_currency(&self) -> &str {
-        &self.field_62f.currency[0..2]
+        currency_prefix(&self.field_62f.currency)
     }
 
     // ========================================================================
@@ -152,7 +153,7 @@ impl MT941 {
 
         // Check 60F if present
         if let Some(ref field_60f) = self.field_60f
-            && &field_60f.currency[0..2] != base_currency
+            && currency_prefix(&field_60f.currency) != base_currency
         {
             errors.push(SwiftValidationError::content_error(
                     "C27",
@@ -160,7 +161,7 @@ impl MT941 {
                     &field_60f.currency,
                     &format!(
                         "Currency code in field 60F ({}) must have the same first two characters as field 62F ({})",
-                        &field_60f.currency[0..2],
+                        currency_prefix(&field_60f.currency),
                         base_currency
                     ),
                     "The first two characters of the three character currency code in fields 60F, 90D, 90C, 62F, 64 and 65 must be the same for all occurrences of these fields",
@@ -172,7 +173,7 @@ impl MT941 {
 
         // Check 90D if present
         if let Some(ref field_90d) = self.field_90d
-            && &field_90d.currency[0..2] != base_currency
+            && currency_prefix(&field_90d.currency) != base_currency
         {
             errors.push(SwiftValidationError::content_error(
                     "C27",
@@ -180,7 +181,7 @@ impl MT941 {
                     &field_90d.currency,
                     &format!(
                         "Currency code in field 90D ({}) must have the same first two characters as field 62F ({})",
-                        &field_90d.currency[0..2],
+                        currency_prefix(&field_90d.currency),
                         base_currency
                     ),
                     "The first two characters of the three character currency code in fields 60F, 90D, 90C, 62F, 64 and 65 must be the same for all occurrences of these fields",
@@ -192,7 +193,7 @@ impl MT941 {
 
         // Check 90C if present
         if let Some(ref field_90c) = self.field_90c
-            && &field_90c.currency[0..2] != base_currency
+            && currency_prefix(&field_90c.currency) != base_currency
         {
             errors.push(SwiftValidationError::content_error(
                     "C27",
@@ -200,7 +201,7 @@ impl MT941 {
                     &field_90c.currency,
                     &format!(
                         "Currency code in field 90C ({}) must have the same first two characters as field 62F ({})",
-                        &field_90c.currency[0..2],
+                        currency_prefix(&field_90c.currency),
                         base_currency
                     ),
                     "The first two characters of the three character currency code in fields 60F, 90D, 90C, 62F, 64 and 65 must be the same for all occurrences of these fields",
@@ -212,7 +213,7 @@ impl MT941 {
 
         // Check 64 if present
         if let Some(ref field_64) = self.field_64
-            && &field_64.currency[0..2] != base_currency
+            && currency_prefix(&field_64.currency) != base_currency
         {
             errors.push(SwiftValidationError::content_error(
                     "C27",
@@ -220,7 +221,7 @@ impl MT941 {
                     &field_64.currency,
                     &format!(
                         "Currency code in field 64 ({}) must have the same first two characters as field 62F ({})",
-                        &field_64.currency[0..2],
+                        currency_prefix(&field_64.currency),
                         base_currency
                     ),
                     "The first two characters of the three character currency code in fields 60F, 90D, 90C, 62F, 64 and 65 must be the same for all occurrences of these fields",
@@ -233,7 +234,7 @@ impl MT941 {
         // Check 65 if present (can be repetitive)
         if let Some(ref field_65_vec) = self.field_65 {
             for (idx, field_65) in field_65_vec.iter().enumerate() {
-                if &field_65.currency[0..2] != base_currency {
+                if currency_prefix(&field_65.currency) != base_currency {
                     errors.push(SwiftValidationError::content_error(
                         "C27",
                         "65",
@@ -241,7 +242,7 @@ impl MT941 {
                         &format!(
                             "Currency code in field 65[{}] ({}) must have the same first two characters as field 62F ({})",
                             idx,
-                            &field_65.currency[0..2],
+                            currency_prefix(&field_65.currency),
                             base_currency
                         ),
                         "The first two characters of the three character currency code in fields 60F, 90D, 90C, 62F, 64 and 65 must be the same for all occurrences of these fields",
